@@ -415,7 +415,8 @@ prop(
     "ended no goroutine of the device package is alive; (4) each device's MIDI output equals the output of the same history run alone "
     "(exact sequence; disconnect clean-up compared as a multiset because its order is a map walk). Non-trivial = a device whose stream ended "
     "with a note held after its LED loop had sent >= 1 frame; distinct by case hash.",
-    [dict(test="TestC16", bin="race", wrap="mountns", shards=16, checks_quick=12, checks_thorough=200, shrinktime="15s", gomaxprocs=4, timeout_quick=900)],
+    [dict(test="TestC16", bin="race", wrap="mountns", shards=16, checks_quick=12, checks_thorough=200, shrinktime="15s", gomaxprocs=4, timeout_quick=900),
+     dict(test="TestC16Stall", wrap="mountnetns", shards_quick=4, shards_thorough=16, checks_quick=2, checks_thorough=12, shrinktime="30s", gomaxprocs=4, timeout_quick=900)],
     level_text="Generated concurrent schedules under the Go race detector (happens-before based: an unsynchronised access pair is reported "
                "without having to hit the timing window), with termination, leak and solo-vs-concurrent differential oracles.",
     level_note=_LED_NOTE + " Schedules are sampled; a failure of this check cannot be shrunk reliably (the race detector reports each race once per "
